@@ -249,6 +249,18 @@ func TestC16(t *testing.T) {
 		{Kind: "op", Op: &Op{K: "pull", Sub: "src", Max: 2, Via: "handler"}},
 		{Kind: "op", Op: &Op{K: "pull", Sub: "dlyes", Max: 5, Via: "handler"}},
 		{Kind: "op", Op: &Op{K: "pull", Sub: "dlno", Max: 5, Via: "handler"}},
+		// requests that are all answered OK leave a deleted topic that still has a message; the maintenance
+		// service that removes deleted topics comes round before the one that removes the message (its
+		// round fails on the foreign key, which is harmless); the server keeps answering afterwards
+		{Kind: "createTopic", Name: "projects/p/topics/gone"},
+		{Kind: "op", Op: &Op{K: "publish", Topic: "gone", Via: "handler", Msgs: []MsgSpec{{N: 902}}}},
+		{Kind: "deleteTopic", Name: "projects/p/topics/gone"},
+		{Kind: "advance", Adv: time.Second},
+		{Kind: "op", Op: &Op{K: "prune_deleted_topics", Max: 5}},
+		{Kind: "op", Op: &Op{K: "publish", Topic: "t", Via: "handler", Msgs: []MsgSpec{{N: 903}}}},
+		{Kind: "op", Op: &Op{K: "prune_completed_messages", Max: 5}},
+		{Kind: "op", Op: &Op{K: "prune_deleted_topics", Max: 5}},
+		{Kind: "getTopic", Name: T},
 	}
 	reqs = append(reqs, tail...)
 	all := append(append([]Rpc{}, setup...), reqs...)
@@ -271,6 +283,16 @@ func TestC16(t *testing.T) {
 				st.Violate(Violation{What: fmt.Sprintf("[%s] request %s makes the handler panic (%s); the production interceptor chain has no recovery interceptor, the server process terminates", sig, js, r.Panic), Replay: p, FoundInput: true, Sig: sig})
 			}
 			return true
+		}
+		if !w.Ctl.TxIdle() && !crashed["wedged"] {
+			// the request (or maintenance round) has returned but its transaction is neither committed nor
+			// rolled back: it keeps the connection and, with SQLite, the write lock — every later request
+			// that writes blocks and fails ("database is locked")
+			crashed["wedged"] = true
+			p := writeApiReplay(fmt.Sprintf("C16-wedged-%d.json", Seed()), apiReplay{Property: "C16", Sig: "wedged", Seed: Seed(), Rpcs: append([]Rpc{}, all[:i+1]...),
+				What: "a transaction is left open after " + string(js)})
+			st.Violate(Violation{What: fmt.Sprintf("[wedged] after %s (answered %s) a transaction is left open, neither committed nor rolled back: it keeps the write lock and every later request that writes fails", js, r.Status), Replay: p, FoundInput: true, Sig: "wedged"})
+			return false
 		}
 		if r.Status != "OK" && r.DumpBefore != r.DumpAfter {
 			p := writeApiReplay(fmt.Sprintf("C16-error-changed-%d.json", Seed()), apiReplay{Property: "C16", Sig: "error-changed-state", Seed: Seed(), Rpcs: append(append([]Rpc{}, setup...), r.Rpc),
